@@ -409,7 +409,8 @@ def _scatter(acc, case):
     import numpy as np
     import matplotlib.pyplot as plt
     import pyrepseq.plotting as P
-    grids = {"int": ((0, 0), (0, 1), (1, 0), (1, 1)), "half": ((0.0, 0.5), (0.0, 1.5), (0.5, 0.5), (1.5, 2.5)), "neg": ((-1, 0), (-1, -2), (3, 0), (0, -1))}
+    grids = {"int": ((0, 0), (0, 1), (1, 0), (1, 1)), "half": ((0.0, 0.5), (0.0, 1.5), (0.5, 0.5), (1.5, 2.5)), "neg": ((-1, 0), (-1, -2), (3, 0), (0, -1)),
+             "int-x-fractional-y": ((0, 0.5), (0, 1.5), (1, 0.5), (2, 2.5))}
     for gname, grid in grids.items():
         if not _scatter_grid(acc, case, [grid[i] for i in case[1]], gname):
             return
@@ -430,7 +431,11 @@ def _scatter_grid(acc, case, pts, gname):
     for sort in (True, False):
         fig, (ax, other) = plt.subplots(1, 2)          # the requested axes are not pyplot's current axes
         acc.cls("axes-not-current")
-        r = acc.call(P.density_scatter, [p[0] for p in pts], [p[1] for p in pts], ax=ax, discrete=True, sort=sort)
+        xs, ys = [p[0] for p in pts], [p[1] for p in pts]
+        if gname == "int-x-fractional-y" and sort:
+            xs, ys = np.array(xs, dtype=np.int64), np.array(ys, dtype=float)        # integer-typed x next to fractional y
+            acc.cls("integer-x-fractional-y")
+        r = acc.call(P.density_scatter, xs, ys, ax=ax, discrete=True, sort=sort)
         if raised(r):
             acc.fail("density_scatter/raised-" + r.type, case, "axes", r)
             plt.close(fig)
@@ -493,7 +498,7 @@ def _cmap(acc, case):
             la, lb = (("cdr3a", "cdr3b"), (0, 1), ("", "b"), (1, 0))[(len(tab) + sum(a for a, b in tab) + (index == "shifted")) % 4] if mode == "paired" else ("cdr3a", "cdr3b")
             if la in (0, ""):
                 acc.cls("falsy-column-label")
-            df = pd.DataFrame({la: A, lb: B, "meta": ["m%d" % (i % 2) for i in range(n)]})
+            df = pd.DataFrame({la: A, lb: B, "meta": ["m%d" % (i % 2) for i in range(n)], "note": [None if i != 1 else "x" for i in range(n)]})     # a column that is not used at all may have missing cells
             kw_cols = dict(alpha_column=la, beta_column=lb)
             if index == "shifted":
                 df.index = range(11, 11 + n)
